@@ -106,7 +106,7 @@ def check_c12(tier, replay=None):
     rep.add_judged(agg)
     rep.exhaustive = True
     rep.coverage_extra['rule'] = ('every history of StoneRuns: hash seed in %s x {fresh process, after the same backend on the other spec set, '
-                                  'after another backend on the same spec set} x two output directories x 17 backend rows x 3 spec sets (the third compiled with a route whitelist over cyclic annotated types; one with '
+                                  'after another backend on the same spec set} x two output directories x 19 backend rows x 3 spec sets (the third compiled with a route whitelist over cyclic annotated types; one with '
                                   'two omitted-caller classes on one union and struct, custom attrs, cross-namespace imports, a routes-only '
                                   'namespace); each history runs in its own process with PYTHONHASHSEED set; one digest per run over relative '
                                   'paths and bytes; the log is validated by StoneRunsTrace (memo[input] = digest)' % seeds)
